@@ -41,6 +41,13 @@ type c10StateCase struct {
 	CapTypes int    `json:"capability_types_present,omitempty"`
 	MaskLen  int    `json:"mask_length,omitempty"`
 	MaskKind string `json:"mask_kind,omitempty"` // zero | bits | ones
+	// ExtraType / ExtraMask: a further entry of the capability reply with a
+	// capability type the client does not know (or knows already) and a
+	// mask of this many 0x00 / 0xff bytes
+	ExtraType int    `json:"further_capability_type,omitempty"`
+	ExtraLen  int    `json:"further_mask_length,omitempty"`
+	ExtraKind string `json:"further_mask_kind,omitempty"`
+	ExtraSet  bool   `json:"further_entry_present,omitempty"`
 	Flow     string `json:"flow,omitempty"`
 	// after-parse-error: good packages + a malformed one in packet 1, then
 	// short packets
@@ -211,6 +218,15 @@ func c10StateRun(c *Ctx, cs c10StateCase) {
 			}
 			es = append(es, srv.CapEntry{Type: byte(t), Mask: m})
 		}
+		if cs.ExtraSet {
+			m := make([]byte, cs.ExtraLen)
+			if cs.ExtraKind == "ones" {
+				for i := range m {
+					m[i] = 0xff
+				}
+			}
+			es = append(es, srv.CapEntry{Type: byte(cs.ExtraType), Mask: m})
+		}
 		capItem := lpItem{Kind: "capability", Caps: "c10", B: srv.Capability(es...)}
 		var script lpScript
 		if cs.Flow == "encrypted" {
@@ -313,6 +329,15 @@ func runC10State(c *Ctx) {
 			for _, ml := range []int{0, 1, 14, 20} {
 				for _, mk := range []string{"zero", "bits", "ones"} {
 					cases = append(cases, c10StateCase{Leg: "state", Kind: "login-caps", Flow: flow, CapTypes: types, MaskLen: ml, MaskKind: mk})
+				}
+			}
+		}
+	}
+	for _, flow := range []string{"plain", "encrypted"} {
+		for _, et := range []int{4, 0, 5, 255, 1, 3} {
+			for _, el := range []int{1, 2, 14} {
+				for _, ek := range []string{"zero", "ones"} {
+					cases = append(cases, c10StateCase{Leg: "state", Kind: "login-caps", Flow: flow, CapTypes: 7, MaskLen: 14, MaskKind: "bits", ExtraSet: true, ExtraType: et, ExtraLen: el, ExtraKind: ek})
 				}
 			}
 		}
